@@ -5,41 +5,44 @@ from vlib import core
 META = {
     "level": "proof",
     "text": ("Coq theorems over ALL byte lists / code-point lists: hex, Base64 (4 option combinations) and UTF-8 round trips, output shapes and "
-             "length formulas, 'the strict decoders accept exactly the encoder's output', SHA-2 output lengths and padding (whole blocks, "
-             "0x80, bit length), HMAC = RFC 2104 with a one-block key. The hash functions (SHA-256/384/512/512-256, HMAC) are reference "
-             "definitions over N words (FIPS 180-4) validated inside Coq by NIST / RFC 4231 / RFC 4648 test vectors: the vectors are tests, "
-             "not theorems. The model is tied to the code by running hex_bytes/2, chars_base64/3, chars_utf8bytes/2 and crypto_data_hash/3 "
-             "on generated inputs (block boundaries, non-ASCII, both encodings, HMAC keys shorter/equal/longer than the block) and comparing "
-             "the output bytes with the model inside Coq (vm_compute)."),
+             "length formulas, 'the strict decoders accept exactly the encoder's output', SHA-2 and SHA-3 output lengths and padding (whole blocks, "
+             "0x80 + bit length / 0x06..0x80), HMAC = RFC 2104 with a one-block key, ChaCha20-Poly1305 decrypt-after-encrypt = plaintext for every "
+             "key/nonce/aad/plaintext. The primitives themselves (SHA-256/384/512/512-256, SHA3-224/256/384/512, HMAC, ChaCha20, Poly1305) are "
+             "reference definitions over N words (FIPS 180-4, FIPS 202, RFC 2104, RFC 8439) validated inside Coq by NIST / RFC 4231 / RFC 8439 / "
+             "RFC 4648 test vectors: the vectors are tests, not theorems. The model is tied to the code by running hex_bytes/2, chars_base64/3, "
+             "chars_utf8bytes/2, crypto_data_hash/3 and crypto_data_encrypt/6 on generated inputs (block boundaries, non-ASCII, both encodings, HMAC "
+             "keys shorter/equal/longer than the block) and comparing the output bytes with the model inside Coq (vm_compute)."),
     "note": ("Trusted: Coq kernel + vm_compute; harness vrun; the Python generator; hex and UTF-8 models mirror the Prolog of crypto.pl / "
-             "charsio.pl (utf8_decode mirrors the lenient decode_utf8//1 including U+FFFD replacement; continuation//3 is unrolled), Base64 "
-             "and SHA-2/HMAC are reference definitions (RFC 4648, FIPS 180-4, RFC 2104), not mirrors of the base64/ring crates. NOT covered "
-             "by the Coq model: sha3_224/256/384/512, blake2s256, blake2b512, ripemd160 (compared with Python hashlib only, an untrusted-by-Coq "
-             "oracle, plus output-shape and encoding-consistency checks) and chacha20-poly1305 (only crypto_data_encrypt then "
-             "crypto_data_decrypt returns the plaintext, tag/key/aad tampering makes decryption fail); crypto_data_hkdf, "
-             "crypto_password_hash, ed25519/curve25519 are outside the property. No axioms (all theorems closed under the global context)."),
+             "charsio.pl (utf8_decode mirrors the lenient decode_utf8//1 including U+FFFD replacement; continuation//3 is unrolled), Base64, "
+             "SHA-2, SHA-3, HMAC, ChaCha20-Poly1305 are reference definitions, not mirrors of the base64/ring/sha3 crates. NOT covered by the Coq "
+             "model: blake2s256, blake2b512, ripemd160 (compared with Python hashlib only -- an oracle outside Coq -- plus the output shape); "
+             "crypto_data_decrypt is exercised only on the implementation (decrypts its own output; tampered tag/key/aad rejected) while the model "
+             "side is the theorem aead_encrypt_decrypt; crypto_data_hkdf, crypto_password_hash, ed25519/curve25519 are outside the property. "
+             "No axioms (all theorems closed under the global context)."),
     "technique": ("Coq proof (hex_roundtrip, hex_decode_encode, base64_roundtrip, base64_decode_canonical, base64_length, utf8bytes_roundtrip, "
-                  "sha_output_length, sha_padding_block_multiple, hmac_definition) over an impl-mirror (hex, UTF-8) / reference (Base64, SHA-2, HMAC) "
-                  "model + differential correspondence evaluated in Coq"),
+                  "sha_output_length, sha_padding_block_multiple, sha3_padding_block_multiple, hmac_definition, aead_encrypt_decrypt) over an "
+                  "impl-mirror (hex, UTF-8) / reference (Base64, SHA-2, SHA-3, HMAC, ChaCha20-Poly1305) model + differential correspondence evaluated in Coq"),
     "design_ref": "DESIGN.md section 8, C37",
     "coq_targets": ["C37/Props.vo"],
     "coq_dirs": ["C37"],
     "props": "C37/Props.v",
     "trusted_base": ["Coq 8.16.1 kernel, vm_compute (no native_compute)", "harness/vrun + tools/vlib (correspondence)",
-                     "FIPS 180-4 / RFC 2104 / RFC 4648 transcribed as Gallina reference definitions (validated by published test vectors as Examples)",
-                     "Python hashlib as the only oracle for sha3/blake2/ripemd160 (not covered by the Coq model)"],
+                     "FIPS 180-4 / FIPS 202 / RFC 2104 / RFC 4648 / RFC 8439 transcribed as Gallina reference definitions (validated by published test vectors as Examples)",
+                     "Python hashlib as the only oracle for blake2s256/blake2b512/ripemd160 (not covered by the Coq model)"],
     "assumptions": ["inputs are limited to 300 bytes/characters (thorough: 700)",
                     "bytes are integers 0..255 and characters are Unicode scalar values (the model's hypotheses Forall (<256) / valid_cp)"],
 }
 
-IMPORTS = "From V Require Import C37.Model."
+IMPORTS = "From V Require Import C37.Model C37.Keccak C37.Chacha."
 PRELUDE = ":- use_module(library(crypto)).\n:- use_module(library(charsio)).\n:- use_module(library(lists)).\n"
 BOUNDARY = [0, 1, 2, 3, 4, 5, 6, 7, 8, 31, 32, 33, 54, 55, 56, 57, 62, 63, 64, 65, 66, 110, 111, 112, 113, 118, 119, 120, 121,
             126, 127, 128, 129, 135, 136, 137, 183, 191, 192, 193, 239, 240, 247, 248, 255, 256, 257, 299, 300]
 CP_BOUNDARY = [0, 1, 0x7F, 0x80, 0xFF, 0x100, 0x7FF, 0x800, 0xFFF, 0x1000, 0xD7FF, 0xE000, 0xFEFF, 0xFFFD, 0xFFFE, 0xFFFF,
                0x10000, 0x1F600, 0x3FFFF, 0x40000, 0xFFFFF, 0x100000, 0x10FFFF]
 ALGS = {"sha256": ("SHA256", 64, 32), "sha384": ("SHA384", 128, 48), "sha512": ("SHA512", 128, 64), "sha512_256": ("SHA512_256", 128, 32)}
-UNMODELLED = {"sha3_224": 28, "sha3_256": 32, "sha3_384": 48, "sha3_512": 64, "blake2s256": 32, "blake2b512": 64, "ripemd160": 20}
+SHA3 = {"sha3_224": 28, "sha3_256": 32, "sha3_384": 48, "sha3_512": 64}
+UNMODELLED = {"blake2s256": 32, "blake2b512": 64, "ripemd160": 20}
+HASHLIB = dict(SHA3, **UNMODELLED)     # algorithms additionally compared with Python hashlib (SHA-3 is ALSO compared with the Coq model)
 
 
 # ------------------------------------------------------------------ text helpers
@@ -413,14 +416,39 @@ def build_hash_cases(ctx, C):
                     add_hash(alg, rng.choice(["utf8", None]), key, [gen_cp(rng) for _ in range(min(n, 80))], rng.random() < 0.5)
 
 
+def build_sha3_cases(ctx, C):
+    rng = ctx.rng
+    S = lambda q, t: ctx.scale(q, t)
+    for alg, dlen in SHA3.items():
+        rate = 200 - 2 * dlen
+        ls = [0, 1, rate - 2, rate - 1, rate, rate + 1] + [rng.randrange(2, 301) for _ in range(S(1, 40))]
+        if ctx.thorough:
+            ls += [2 * rate - 1, 2 * rate, 2 * rate + 1, 3 * rate - 1, 3 * rate]
+        for n in ls:
+            bs = gen_bytes(rng, n)
+            use_str = rng.random() < 0.5
+            src = ("_Cs = %s" % pl_string(bs)) if use_str else ("maplist(char_code, _Cs, %s)" % pl_ints(bs))
+            q = "%s, crypto_data_hash(_Cs, _H, [algorithm(%s),encoding(octet)]), maplist(char_code, _H, Hc)." % (src, alg)
+            C.add("hash3", (alg, "octet", tuple(bs)), q, "Hc",
+                  lambda o, bs=bs, dlen=dlen: "check_hash3 %d true %s %s" % (dlen, coq_list(bs), coq_opt(o[1] if o[0] == "ok" else None))
+                  if o[0] == "ok" else None, len(bs))
+        for _ in range(S(2, 30)):
+            cps = [gen_cp(rng) for _ in range(rng.choice([1, 5, 20, 40]))]
+            enc = rng.choice(["utf8", None])
+            q = "_Cs = %s, crypto_data_hash(_Cs, _H, [algorithm(%s)%s]), maplist(char_code, _H, Hc)." % (pl_string(cps), alg, ",encoding(utf8)" if enc else "")
+            C.add("hash3", (alg, enc, tuple(cps)), q, "Hc",
+                  lambda o, cps=cps, dlen=dlen: "check_hash3 %d false %s %s" % (dlen, coq_list(cps), coq_opt(o[1] if o[0] == "ok" else None))
+                  if o[0] == "ok" else None, len(cps))
+
+
 def build_side_cases(ctx):
     """Cases decided without the Coq model: algorithms that are not modelled (hashlib oracle) and encrypt/decrypt round trips."""
     rng = ctx.rng
     S = lambda q, t: ctx.scale(q, t)
     out = []
     names = {"blake2s256": "blake2s", "blake2b512": "blake2b"}
-    have = {a: names.get(a, a) for a in UNMODELLED if names.get(a, a) in hashlib.algorithms_available}
-    for alg, dlen in UNMODELLED.items():
+    have = {a: names.get(a, a) for a in HASHLIB if names.get(a, a) in hashlib.algorithms_available}
+    for alg, dlen in HASHLIB.items():
         for n in [0, 1, 3, 55, 56, 63, 64, 65, 71, 72, 73, 103, 104, 105, 127, 128, 129, 135, 136, 137, 143, 144, 145, 200, 300][:S(25, 25)]:
             bs = gen_bytes(rng, n)
             q = "maplist(char_code, _Cs, %s), crypto_data_hash(_Cs, _H, [algorithm(%s),encoding(octet)]), maplist(char_code, _H, Hc)." % (pl_ints(bs), alg)
@@ -447,7 +475,7 @@ def build_side_cases(ctx):
         nbytes = len(plain) if enc == "octet" else len(utf8_of(plain))
         key2 = list(key); key2[rng.randrange(32)] ^= 1 << rng.randrange(8)
         q = ("_P = %s, _K = %s, _IV = %s, crypto_data_encrypt(_P, %s, _K, _IV, _CT, %s), "
-             "crypto_data_decrypt(_CT, %s, _K, _IV, _P2, %s), maplist(char_code, _P2, Back), length(_CT, Len), "
+             "crypto_data_decrypt(_CT, %s, _K, _IV, _P2, %s), maplist(char_code, _P2, Back), length(_CT, Len), maplist(char_code, _CT, CTc), "
              "T = [_T0|_Ts], _T1 is xor(_T0, 1), "
              "( crypto_data_decrypt(_CT, %s, _K, _IV, _, %s) -> BadTag = accepted ; BadTag = rejected ), "
              "( crypto_data_decrypt(_CT, %s, %s, _IV, _, %s) -> BadKey = accepted ; BadKey = rejected ), "
@@ -458,7 +486,7 @@ def build_side_cases(ctx):
             A, "[" + ",".join(["tag(T)"] + ([] if enc is None else ["encoding(%s)" % enc]) + ["aad(\"%s\")" % ("zz" if aad is None else "x")]) + "]")
         if aad is not None and aad == [ord("x")]:
             continue
-        out.append({"kind": "encdec", "query": q, "plain": plain, "nbytes": nbytes, "enc": enc})
+        out.append({"kind": "encdec", "query": q, "plain": plain, "nbytes": nbytes, "enc": enc, "key": key, "iv": iv, "aad": aad or []})
     return out
 
 
@@ -492,6 +520,8 @@ def describe(c):
     if c["kind"] == "hash":
         alg, enc, key, codes = c["ident"]
         return "%s:%s:%s" % (alg, enc or "default", "hmac" if key is not None else "plain")
+    if c["kind"] == "hash3":
+        return "%s:%s" % (c["ident"][0], c["ident"][1] or "default")
     if c["kind"] in ("b64_enc", "b64_dec"):
         return "pad=%s,url=%s" % (c["ident"][0], c["ident"][1])
     return ""
@@ -502,12 +532,13 @@ def run(ctx):
     t0 = time.time()
     C = build_cases(ctx)
     build_hash_cases(ctx, C)
+    build_sha3_cases(ctx, C)
     cases = C.items
     side = build_side_cases(ctx)
     for c in cases:
         c["query"] = wrap(c["query"], [c["var"]] + ([c["post"][0]] if c["post"] is not None else []))
     for s in side:
-        s["query"] = wrap(s["query"], ["Hc"] if s["kind"] == "hashlib" else ["Back", "Len", "T", "BadTag", "BadKey", "BadAad"])
+        s["query"] = wrap(s["query"], ["Hc"] if s["kind"] == "hashlib" else ["Back", "Len", "T", "BadTag", "BadKey", "BadAad", "CTc"])
     answers = run_queries(ctx, [c["query"] for c in cases] + [s["query"] for s in side], "impl")
     side_answers = answers[len(cases):]
     answers = answers[:len(cases)]
@@ -541,7 +572,7 @@ def run(ctx):
             if back != list(c["post"][1]):
                 failures.append({"key": "%s:%s:own-output-not-decoded" % (c["kind"], describe(c)), "what": "decoding the implementation's own output does not give the input back",
                                  "input": c["query"][:2000], "impl": json.dumps(back)[:500], "spec": json.dumps(list(c["post"][1]))[:500], "property_fails": True})
-        (heavy if c["kind"] == "hash" else light).append((i, expr))
+        (heavy if c["kind"] in ("hash", "hash3") else light).append((i, expr))
 
     bad = []
     for group, chunk, tag in ((light, 120, "cases"), (heavy, ctx.scale(12, 40), "hashcases")):
@@ -550,7 +581,6 @@ def run(ctx):
         b, errs = core.coq_eval_bools(ctx.prop, IMPORTS, [e for _, e in group], chunk=chunk, timeout=1500, tag=tag)
         bad += [group[j][0] for j in b]
         tie_breaks += [{"kind": "coq-eval", "what": "model evaluation shard failed", "detail": t} for _, t in errs]
-    t_coq = time.time() - t0 - t_impl
     reported = {}
     for i in sorted(bad, key=lambda i: len(cases[i]["query"])):
         c = cases[i]
@@ -570,7 +600,8 @@ def run(ctx):
                                    what="behaviour on malformed input differs from the mirrored model (lenient UTF-8 decoding / strict Base64 / hex errors)"))
 
     # ---- side cases
-    side_n = {"hashlib": 0, "hashlib_skipped": 0, "encdec": 0}
+    side_n = {"hashlib": 0, "hashlib_skipped": 0, "encdec": 0, "encdec_model_compared": 0}
+    side_exprs = []
     for s, a in zip(side, side_answers):
         fa = first_answer(a)
         if s["kind"] == "hashlib":
@@ -596,34 +627,51 @@ def run(ctx):
                 tag = ints_of(b.get("T"))
                 good = (back == s["plain"] and ln == str(s["nbytes"]) and tag is not None and len(tag) == 16 and
                         b.get("BadTag", {}).get("a") == "rejected" and b.get("BadKey", {}).get("a") == "rejected" and b.get("BadAad", {}).get("a") == "rejected")
+            if good:
+                side_exprs.append((s, "check_encrypt %s %s %s %s %s %s %s" % (
+                    coq_bool(s["enc"] == "octet"), coq_list(s["key"]), coq_list(s["iv"]), coq_list(s["aad"]), coq_list(s["plain"]),
+                    coq_list(ints_of(fa["b"].get("CTc")) or []), coq_list(tag))))
             if not good:
                 failures.append({"key": "encrypt-decrypt:%s" % (s["enc"] or "default"), "what": "crypto_data_encrypt then crypto_data_decrypt does not return the plaintext "
                                  "(or the ciphertext length / tag length / tamper rejection is wrong)", "input": s["query"][:3000],
                                  "impl": json.dumps(fa)[:800], "spec": "Back = plaintext codes, Len = %d, 16-byte tag, tampered tag/key/aad rejected" % s["nbytes"],
                                  "property_fails": True})
+    if side_exprs:
+        b, errs = core.coq_eval_bools(ctx.prop, IMPORTS, [e for _, e in side_exprs], chunk=ctx.scale(4, 12), timeout=1500, tag="aeadcases")
+        tie_breaks += [{"kind": "coq-eval", "what": "model evaluation shard failed", "detail": t} for _, t in errs]
+        side_n["encdec_model_compared"] = len(side_exprs)
+        for j in b[:5]:
+            sc, e = side_exprs[j]
+            failures.append({"key": "encrypt:%s:ciphertext-or-tag" % (sc["enc"] or "default"), "what": "ciphertext or tag of crypto_data_encrypt differs from the RFC 8439 model",
+                             "input": sc["query"][:3000], "impl": e[-1500:], "spec": core.coq_eval_show(ctx.prop, IMPORTS, "data_encrypt %s %s %s %s %s" % (
+                                 coq_bool(sc["enc"] == "octet"), coq_list(sc["key"]), coq_list(sc["iv"]), coq_list(sc["aad"]), coq_list(sc["plain"])))[:1500],
+                             "property_fails": True})
+    t_coq = time.time() - t0 - t_impl
     dist["side_cases"] = side_n
-    dist["not_covered_by_model"] = sorted(UNMODELLED) + ["chacha20-poly1305"]
+    dist["not_covered_by_model"] = sorted(UNMODELLED)
 
     nontrivial = sum(1 for c in cases if c["valid"] and c["size"] > 0)
     samples = []
-    for k in ("hex_enc", "hex_dec", "b64_enc", "b64_dec", "utf8_enc", "utf8_dec", "hash"):
+    for k in ("hex_enc", "hex_dec", "b64_enc", "b64_dec", "utf8_enc", "utf8_dec", "hash", "hash3"):
         cs = [c for c in cases if c["kind"] == k and 0 < len(c["query"]) < 400]
         for c in cs[:2 if k == "hash" else 1]:
             samples.append({"query": c["query"], "impl": json.dumps(c["outcome"])[:300]})
     for s, a in list(zip(side, side_answers))[:1]:
         samples.append({"query": s["query"][:400], "impl": json.dumps(first_answer(a))[:300]})
     return {
-        "evaluations": len(light) + len(heavy) + side_n["hashlib"] + side_n["encdec"],
+        "evaluations": len(light) + len(heavy) + side_n["hashlib"] + side_n["encdec"] + side_n["encdec_model_compared"],
         "distinct_nontrivial": nontrivial,
         "rule": ("inputs of length 0..300 (thorough 700) at the SHA block/padding boundaries (55,56,63,64,65,111,112,119,120,127,128,...) and the "
                  "Base64 group boundaries plus random lengths; contents random/ASCII/0x00/0xFF/edge bytes and code points from all four UTF-8 length "
                  "classes; inputs passed both as char lists and as string literals; hex_bytes/2, chars_base64/3 (4 option combinations, defaults and "
                  "both option orders), chars_utf8bytes/2 in both directions, crypto_data_hash/3 for sha256/384/512/512_256 x encoding(octet|utf8|default) "
-                 "x hmac keys of length 0,1,20,digest,B-1,B,B+1,2B,2B+3; decoders also get malformed text (odd length, bad characters, wrong padding, "
+                 "x hmac keys of length 0,1,20,digest,B-1,B,B+1,2B,2B+3, sha3_224/256/384/512 at lengths 0,1,rate-2..rate+1 and random, "
+                 "crypto_data_encrypt/6 (ciphertext and tag) at lengths 0,1,15..17,63..65,127..129,255,256,300 and random with/without aad; decoders also get malformed text (odd length, bad characters, wrong padding, "
                  "non-zero trailing bits, other charset, truncated/overlong/surrogate UTF-8). Every case's output bytes are compared with the model in Coq. "
                  "distinct_nontrivial = distinct (operation, options, input) cases with a NON-EMPTY WELL-FORMED input whose result the property fixes "
                  "(malformed-input cases and empty inputs are run but not counted). Not model-backed (counted in evaluations, listed in distribution.side_cases): "
-                 "sha3_*/blake2*/ripemd160 against Python hashlib, chacha20-poly1305 encrypt-then-decrypt."),
+                 "blake2s256/blake2b512/ripemd160 (and, redundantly, sha3_*) against Python hashlib; crypto_data_decrypt of the implementation's own ciphertext "
+                 "(plaintext returned, tampered tag/key/aad rejected)."),
         "samples": samples,
         "distribution": dist,
         "failures": failures,
@@ -646,5 +694,7 @@ def spec_expr(c):
         return "utf8_encode %s" % coq_list(ident)
     if k == "utf8_dec":
         return "utf8_decode %s" % coq_list(ident)
+    if k == "hash3":
+        return "data_hash3 %d %s %s" % (SHA3[ident[0]], coq_bool(ident[1] == "octet"), coq_list(ident[2]))
     alg, enc, key, codes = ident
     return "data_hash %s %s %s %s" % (ALGS[alg][0], coq_bool(enc == "octet"), coq_opt(list(key) if key is not None else None), coq_list(codes))
